@@ -173,6 +173,20 @@ for mode in MODES:
         for mm in re.finditer(r"\.(clock_rate|hardrock_offsets)\(\)", ns):
             bypass.append((os.path.relpath(path, repo), ns[max(0, mm.start() - 40):mm.end()]))
 
+# `…GradualPerformance::new` (src/<mode>/performance/gradual.rs)
+from _rust import split_statements  # noqa: E402
+perf_new = []
+for mode in MODES:
+    path = os.path.join(repo, "src", mode.lower(), "performance", "gradual.rs")
+    st = ["?missing"]
+    if os.path.exists(path):
+        news = [(sg, b) for n, sg, b in find_fns(clean_file(path), "new") if "Difficulty" in sg]
+        if len(news) == 1:
+            st = [norm(x).replace(mode + "GradualDifficulty", "MODEGradualDifficulty") for x in split_statements(news[0][1])]
+        else:
+            unknown.append(f"{mode}:{len(news)}-gradual-performance-constructors")
+    perf_new.append((mode, st))
+
 L = []
 L.append("/- GENERATED by tools/translate.d/gradual_ctor.py from /repo/src/{osu,taiko,catch,mania}/difficulty/{mod,gradual}.rs — do not edit. -/")
 L.append("namespace Rosu.Gen.GradualCtor")
@@ -190,6 +204,11 @@ L.append("")
 L.append("/-- zero-argument `.clock_rate()` / `.hardrock_offsets()` calls under src/<mode>/: (file, context) -/")
 L.append("def overrideBypass : List (String × String) := [")
 L.append(",\n".join(f"  ({lean_str(a)}, {lean_str(b)})" for a, b in bypass))
+L.append("]")
+L.append("")
+L.append("/-- statements of `…GradualPerformance::new` (own gradual difficulty type written `MODEGradualDifficulty`) -/")
+L.append("def gradualPerfNew : List (String × List String) := [")
+L.append(",\n".join(f"  ({lean_str(m)}, {strs(t)})" for m, t in perf_new))
 L.append("]")
 L.append("")
 L.append("/-- shapes the extractor did not understand (must be empty) -/")
